@@ -251,6 +251,7 @@ def run(ctx):
     # ---- static half
     _static(ctx)
     # ---- dynamic half
+    _tiny_sweep(ctx)
     R = recipes.recipes()
     inv = _public_inventory()
     driven = set(k.split("[")[0] for k in R)
@@ -295,7 +296,78 @@ def replay(ctx, obj):
     if c["kind"] == "static":
         _static(ctx)
         return
+    if c["kind"] == "tiny":
+        fn, mk = _tiny_calls()[c["fn"]]
+        out, val, _ = monitor.call(fn, mk(_tiny_world(c["n"], c["dtype"])), {}, budget=400000, wall=40)
+        if out != "returned" and _is_link_error(out, val):
+            ctx.violation("unlinked-at-runtime", c, {"outcome": out, "error": str(val)[:200]})
+        return
     h = _history((c["fn"], c.get("seed", 0), c.get("wk", 0)))
     rej = ctx.trace("Purity", _split_cases(h))
     for cid, vs in rej.items():
         ctx.violation("%s(%s)" % (vs[0][0], c["fn"].split("[")[0]), c, {"verdict": vs[0], "events": h["events"]})
+
+
+# ---- the smallest inputs: only LINK failures are judged here (the static clause is about every code path, whatever the
+# input; loops that do not execute at all are where a conditionally bound local or a rarely taken branch shows)
+def _tiny_calls():
+    import kneeliverse.convex_hull as ch
+    import kneeliverse.curvature as cu
+    import kneeliverse.dfdt as df
+    import kneeliverse.kneedle as kn
+    import kneeliverse.lmethod as lm
+    import kneeliverse.menger as me
+    import kneeliverse.rdp as rdp
+    import kneeliverse.zmethod as zm
+    import kneeliverse.postprocessing as pp
+    import kneeliverse.clustering as cl
+    P = lambda W: W["P"]
+    xy = lambda W: (W["P"][:, 0], W["P"][:, 1])
+    C = {"curvature.knee": (cu.knee, lambda W: (P(W),)), "curvature.multi_knee": (cu.multi_knee, lambda W: (P(W),)),
+         "dfdt.knee": (df.knee, lambda W: (P(W),)), "dfdt.get_knee": (df.get_knee, xy), "dfdt.multi_knee": (df.multi_knee, lambda W: (P(W),)),
+         "menger.knee": (me.knee, lambda W: (P(W),)), "menger.multi_knee": (me.multi_knee, lambda W: (P(W),)),
+         "lmethod.knee": (lm.knee, lambda W: (P(W),)), "lmethod.get_knee": (lm.get_knee, xy),
+         "lmethod.multi_knee": (lm.multi_knee, lambda W: (P(W),)), "lmethod.multi_knee[t2=3]": (lm.multi_knee, lambda W: (P(W), 0.01, 3)),
+         "kneedle.knee": (kn.knee, lambda W: (P(W),)), "kneedle.multi_knee": (kn.multi_knee, lambda W: (P(W),)),
+         "zmethod.knees": (zm.knees, lambda W: (W["Z"],)), "zmethod.getPoints": (zm.getPoints, lambda W: (W["Z"],)),
+         "rdp.rdp": (rdp.rdp, lambda W: (P(W),)), "rdp.grdp": (rdp.grdp, lambda W: (P(W),)),
+         "rdp.rdp_fixed": (rdp.rdp_fixed, lambda W: (P(W), 3)), "rdp.mp_grdp": (rdp.mp_grdp, lambda W: (P(W),)),
+         "rdp.min_point_rdp": (rdp.min_point_rdp, lambda W: (P(W),)),
+         "convex_hull.graham_scan_lower": (ch.graham_scan_lower, lambda W: (P(W),)),
+         "convex_hull.graham_scan_upper": (ch.graham_scan_upper, lambda W: (P(W),)),
+         "postprocessing.filter_worst_knees": (pp.filter_worst_knees, lambda W: (P(W), np.array([1]))),
+         "postprocessing.filter_corner_knees": (pp.filter_corner_knees, lambda W: (P(W), np.array([1]))),
+         "clustering.single_linkage": (cl.single_linkage, lambda W: (P(W), 0.2)), "clustering.complete_linkage": (cl.complete_linkage, lambda W: (P(W), 0.2)),
+         "clustering.centroid_linkage": (cl.centroid_linkage, lambda W: (P(W), 0.2)), "clustering.average_linkage": (cl.average_linkage, lambda W: (P(W), 0.2))}
+    return C
+
+
+def _tiny_world(n, dtype):
+    y = np.array([20.0, 6.0, 2.0, 1.0, 0.5][:n])
+    x = np.arange(1, n + 1, dtype=float)
+    P = np.column_stack([x, y])
+    Z = np.column_stack([x, y / 21.0])
+    if dtype == "int64":
+        P = np.column_stack([x, np.array([20, 6, 2, 1, 0][:n])]).astype(np.int64)
+    return {"P": P, "Z": Z}
+
+
+def _is_link_error(outcome, shown):
+    return any(t in outcome for t in ("NameError", "AttributeError", "UnboundLocalError")) or \
+        ("TypeError" in outcome and "argument" in str(shown))
+
+
+def _tiny_sweep(ctx):
+    C = _tiny_calls()
+    n_calls = 0
+    for name in sorted(C):
+        fn, mk = C[name]
+        for n in (2, 3, 4, 5):
+            for dt in ("float64", "int64"):
+                W = _tiny_world(n, dt)
+                out, val, _ = monitor.call(fn, mk(W), {}, budget=400000, wall=40)
+                n_calls += 1
+                if out != "returned" and _is_link_error(out, val):
+                    ctx.violation("unlinked-at-runtime", {"kind": "tiny", "fn": name, "n": n, "dtype": dt},
+                                  {"outcome": out, "error": str(val)[:200]}, match="unlinked-at-runtime:%s" % name.split("[")[0])
+    ctx.extra["tiny_input_calls"] = n_calls
